@@ -17,7 +17,11 @@ fn main() {
         "c05" => checks::c05::run(&a),
         "c06" => checks::c06::run(&a),
         "c07" => checks::c07::run(&a),
+        "c09" => checks::c09::run(&a),
+        "c10" => checks::c10::run(&a),
         "c11" => checks::c11::run(&a),
+        "c12" => checks::c12::run(&a),
+        "c14" => checks::c14::run(&a),
         other => {
             eprintln!("unknown check {other}");
             std::process::exit(2);
